@@ -9,6 +9,7 @@ Emitted from the ASTs of /repo/norminette (syntactic, fail closed):
   silenced_code_mentions   every string constant equal to one of the codes emitted after the guard, per file
   dynamic_emitters   emission calls whose code is not a string literal
   main_args_reads    every read of `args.<dest>` in __main__.py with the statement it occurs in
+  inline_branch      the statements of main()'s `if args.cfile or args.hfile:` branch (incl. the newline translation)
   formatter_option_reads   reads of the formatter options in errors.py
   presentation_names_in_analysis   uses of the presentation names outside __main__.py / errors.py
   argparse_table     the add_argument calls: flags, dest, action, default, nargs
@@ -351,6 +352,17 @@ def gen_options(repo, L):
                 raise TranslateError("__main__.py: `args` used as a whole: %s" % ast.unparse(enclosing_stmt(par, n))[:80])
     args_reads = sorted(set(args_reads))
 
+    # ---- the inline branch of main(): every statement of `if args.cfile or args.hfile:` (what happens to the content
+    #      between the command line and File(...))
+    inl = [n for n in ast.walk(mains[0]) if isinstance(n, ast.If) and ast.unparse(n.test) == "args.cfile or args.hfile"]
+    if len(inl) != 1:
+        raise TranslateError("__main__.py: expected exactly one `if args.cfile or args.hfile:`")
+    inline_branch = []
+    for st in inl[0].body:
+        if not isinstance(st, (ast.Assign, ast.Expr)):
+            raise TranslateError("__main__.py: unexpected statement in the inline branch: %s" % type(st).__name__)
+        inline_branch.append(" ".join(ast.unparse(st).split()))
+
     table = []
     for n in ast.walk(mains[0]):
         if isinstance(n, ast.Call) and isinstance(n.func, ast.Attribute) and n.func.attr == "add_argument":
@@ -425,6 +437,8 @@ def gen_options(repo, L):
     o += "Definition dynamic_emitters : list (string * string * string) :=\n  %s.\n\n" % t3(sorted(set(dynamic_emitters)))
     o += "(* (dest, function, statement): every read of args.<dest> in __main__.py *)\n"
     o += "Definition main_args_reads : list (string * string * string) :=\n  %s.\n\n" % t3(args_reads)
+    o += "(* the statements of main()'s `if args.cfile or args.hfile:` branch, in order *)\n"
+    o += "Definition inline_branch : list string :=\n  %s.\n\n" % lst([lit(x) for x in inline_branch])
     o += "(* (function, expression, statement): reads of the formatter options in errors.py *)\n"
     o += "Definition formatter_option_reads : list (string * string * string) :=\n  %s.\n\n" % t3(fmt_reads)
     o += "(* (file, function, name): presentation option names used outside __main__.py / errors.py *)\n"
